@@ -78,6 +78,25 @@ LastInside(flow, edges, n) == IF n = 0 THEN 0
                               ELSE LastInside(flow, edges, n - 1)
 
 (***************************************************************************)
+(* Contexts.  A context of the harness is [src |-> position of the value   *)
+(* it came with (0: no context), mut |-> what an inner context-mutating    *)
+(* element wrote into it in place (0: nothing)].                           *)
+(* The histograms carry the context of the inside value filled last, as it *)
+(* arrived (a snapshot taken before the cell's own sequence runs), plus    *)
+(* context.variable of the argument variable - no key written by an inner  *)
+(* element.  The flow values themselves are changed only by the inner      *)
+(* elements of the cell they go to, never by SplitIntoBins.                *)
+(***************************************************************************)
+Ctx(src, mut) == [src |-> src, mut |-> mut]
+ArrivingCtx(flow, i) == Ctx(IF flow[i].h THEN i ELSE 0, 0)
+HistCtxSem(edges, flow) == LET l == LastInside(flow, edges, Len(flow)) IN
+                           IF l = 0 THEN Ctx(0, 0) ELSE ArrivingCtx(flow, l)
+Mutates(kind) == kind = "mutate"
+FlowCtxSem(kind, edges, flow) ==
+  [i \in 1..Len(flow) |->
+     IF Mutates(kind) /\ flow[i].h /\ IsCell(CellOf(flow[i].x, edges), edges) THEN Ctx(i, i) ELSE ArrivingCtx(flow, i)]
+
+(***************************************************************************)
 (* IterateBins and MapBins on a histogram h (a function on Cells(edges)).  *)
 (***************************************************************************)
 IterSem(h, edges) == [n \in 1..Len(CellSeq(edges)) |->
